@@ -638,7 +638,9 @@ func TestC08Build(t *testing.T) {
 	col := evid.New("C08", "drop-providers", "buildable configurations from which each provider registration is dropped with probability 0-40% (so plain, keyed, optional and group dependencies of singletons, scoped services, transients and initializer functions lose their provider); oracle (=>): if Build succeeds, resolving every registered identity from a fresh scope and from the provider never fails with service-not-found; (<=): if the reference finds no cycle, no captive dependency and no missing required dependency, Build must succeed; non-trivial = a required dependency of a scoped/transient/initializer is missing, or the set contains an initializer depending on a singleton, or an optional/group dependency without provider")
 	defer col.Flush()
 	rapid.Check(t, func(rt *rapid.T) {
-		cfg := kit.GenConfig(rt, kit.FullOpts())
+		gopts := kit.FullOpts()
+		gopts.VoidAnyLife = true // initializer-shaped functions may be registered with any lifetime
+		cfg := kit.GenConfig(rt, gopts)
 		pct := rapid.SampledFrom([]int{0, 0, 10, 25, 40}).Draw(rt, "droppct")
 		dropped := kit.DropRegs(rt, cfg, pct)
 		m, err := kit.NewModel(cfg)
@@ -691,7 +693,15 @@ func TestC08Build(t *testing.T) {
 		}
 		var f *Failure
 		if x.Build.Err == nil {
-			_, obs := x.resolveEverything()
+			rec, obs := x.resolveEverything()
+			// registrations without a service type of their own (initializer-shaped functions) are
+			// registered under a generated key: resolve those too, through what ToSlice reports
+			for _, d := range x.R.Coll.ToSlice() {
+				if d != nil && d.VoidReturn && rec.Created {
+					_, err := rec.S.GetKeyed(d.Type, d.Key)
+					obs = append(obs, &kit.Obs{Kind: "resolve-initializer", Scope: rec.Tag, Err: err})
+				}
+			}
 			for _, o := range obs {
 				if o.Err != nil && kit.IsNotFound(o.Err) {
 					who := "?"
